@@ -212,6 +212,7 @@ class ShockPlugin(SlotPlugin):
         self.mistake_candidates: Dict[str, int] = {}
         self.chain_first: Optional[Tuple] = None
         self.prev_fund: Dict[int, float] = {}
+        self.mistaken: List[Tuple] = []
         cfg = mon.ext.get("cfg", {})
         self.zero_vol = {}
         for m in mon.markets:
@@ -229,6 +230,26 @@ class ShockPlugin(SlotPlugin):
                 vol_, drift_ = f.volatilities.get(m.market_id, 1.0), f.drifts.get(m.market_id, 0.0)
             if vol_ == 0.0:
                 self.zero_vol[m.market_id] = drift_
+
+    def post_tick(self, mon, market, mm, t):
+        # the mistaken order has the configured lifetime: once the clock has passed acceptance + lifetime it is
+        # not in the book any more (whatever else happened to it)
+        keep = []
+        for order, mk, t0, life, name in self.mistaken:
+            if mk is not market:
+                keep.append((order, mk, t0, life, name))
+                continue
+            if order.placed_at is None or order.ttl != life:
+                continue  # never accepted, or rewritten again by a later rule
+            if t > order.placed_at + life:
+                book = market.buy_order_book if order.is_buy else market.sell_order_book
+                if any(x is order for x in book.priority_queue):
+                    mon.viol(self.label if self.label == "C14" else "C14", "mistake_order_outlives_lifetime",
+                             {"shock": name, "accepted_at": order.placed_at, "lifetime": life, "now": t, "market": market.name})
+                mon.probe("mistake_order_lifetime_checked")
+                continue
+            keep.append((order, mk, t0, life, name))
+        self.mistaken = keep
 
     def _funds(self, mon):
         return {m.market_id: m.get_fundamental_price() for m in mon.markets}
@@ -321,6 +342,7 @@ class ShockPlugin(SlotPlugin):
                   and a[6] == int(st["orderTimeLength"]) and close(a[4], want_price, 1e-12) and a[7] == b[7])
             self.replaced[name] = self.replaced.get(name, 0) + 1
             mon.probe("mistake_replaced")
+            self.mistaken.append((order, market, now, int(st["orderTimeLength"]), name))
             if rate == 0.0:
                 mon.probe("mistake_rate_zero")
             if not ok:
@@ -406,7 +428,9 @@ class HaltPlugin(SlotPlugin):
         now_running = market.is_running
         rate = float(st["triggerChangeRate"])
         p0 = market.get_market_price(0)
-        price = market.get_market_price()
+        # "its price" after a fill is the price of that fill (C08: the most recent trade price), taken from the
+        # fill itself rather than from the market's own bookkeeping
+        price = log.price
         dev = abs(p0 - price)
         lines = sorted({p0 * rate * (self.rule_count[sl["name"]] + 1), p0 * rate * (s["count_mkt"] + 1)})
         eps = REL * max(abs(p0), abs(price))
